@@ -15,7 +15,7 @@ UTF8_WELL_FORMED = [
 ]
 
 # partition of the second byte induced by Table 3-7
-SECOND_BYTE_CLASSES = [(0x00, 0x7F), (0x80, 0x8F), (0x90, 0x9F), (0xA0, 0xBF), (0xC0, 0xFF)]
+SECOND_BYTE_CLASSES = [(0x00, 0x7F), (0x80, 0x8F), (0x90, 0x9F), (0xA0, 0xBF), (0xC0, 0xC1), (0xC2, 0xF4), (0xF5, 0xFF)]
 CONT = (0x80, 0xBF)
 
 
